@@ -300,7 +300,24 @@ func WellFormed(g geom.T, level int) bool {
 	}
 	flat := g.FlatCoords()
 	if stride == 0 {
-		return len(flat) == 0 && len(g.Ends()) == 0 && len(g.Endss()) == 0
+		// NoLayout: no coordinates; end offsets (empty rings/lines/polygons kept in position) are all 0,
+		// which is aligned, non-decreasing and finishes at the end of the (empty) coordinates
+		if len(flat) != 0 {
+			return false
+		}
+		for _, e := range g.Ends() {
+			if e != 0 {
+				return false
+			}
+		}
+		for _, ends := range g.Endss() {
+			for _, e := range ends {
+				if e != 0 {
+					return false
+				}
+			}
+		}
+		return true
 	}
 	if len(flat)%stride != 0 {
 		return false
